@@ -59,7 +59,8 @@ def generate(rng, n, tier, stats):
         elif dtype == 'i':
             a['flat'] = [rng.choice(range(-3, 6) if name != 'prod' else [1, 2, -1, 3, 0]) for _ in range(size)]
         skipna = rng.random() < (0.5 if name != 'ptp' else 0.75)
-        if name in ('all', 'any') and skipna: skipna = False     # masked all/any of NaN: outside the modelled domain
+        # all / any with skipna=True ignore the NaNs too: over an all-NaN slice nothing is left, all() is True and any() is False
+        if name in ('all', 'any') and dtype == 'f' and rng.random() < 0.5: skipna = True; stats['all_any_skipna'][pat] += 1
         if dtype == 'b' and skipna: skipna = False
         form = rng.choice(['name', 'pos', 'none', 'tuple'])
         if single and form in ('none', 'tuple'): form = rng.choice(['name', 'pos'])
@@ -82,6 +83,9 @@ def _np_oracle(arr, name, skipna, pos):
             warnings.simplefilter('ignore')
             if skipna and v.dtype.kind == 'f':
                 if name == 'ptp': return np.nanmax(v, axis=pos) - np.nanmin(v, axis=pos)
+                # NaNs ignored as missing values: they are neutral for all() and for any()
+                if name == 'all': return np.all(np.where(np.isnan(v), True, v != 0), axis=pos)
+                if name == 'any': return np.any(np.where(np.isnan(v), False, v != 0), axis=pos)
                 return getattr(np, 'nan' + name)(v, axis=pos)
             r = getattr(np, name)(v, axis=pos)
             if name == 'median' and v.dtype.kind == 'f':
